@@ -354,6 +354,25 @@ class C17(Prop):
         if rc != 0:
             col.count("cli_nonzero_exit")
             return
+        if all(os.path.isfile(a) for a in args):
+            # formatting run (no --list-files) over explicitly named files only: the same files, in the order given
+            with open(os.path.join(root, "flowmark.toml"), "w") as f:
+                f.write("".join(f"{keys[k]} = {tv(v)}\n" for k, v in settings.items() if k in keys and v is not None))
+            out2 = io.StringIO()
+            try:
+                with contextlib.redirect_stdout(out2), contextlib.redirect_stderr(io.StringIO()):
+                    try:
+                        rc2 = cli.main(list(args))
+                    except SystemExit as e:
+                        rc2 = e.code
+            finally:
+                os.remove(os.path.join(root, "flowmark.toml"))
+            # (every generated file holds one word, so its formatted form is that word plus a newline)
+            expect = "".join(open(a).read() + "\n" for a in args if os.path.realpath(a) in set(want))
+            col.count("format_runs_over_explicit_files")
+            if rc2 == 0 and out2.getvalue() != expect:
+                col.violation("cli", "C17/cli-format-run-over-explicit-files-differs-from-reference", case,
+                              {"settings": settings, "args": args, "stdout_len": len(out2.getvalue()), "expected_len": len(expect)})
         gotl = sorted(os.path.realpath(x) for x in out.getvalue().split("\n") if x)
         if gotl != want:
             extra, missing = sorted(set(gotl) - set(want)), sorted(set(want) - set(gotl))
